@@ -547,9 +547,16 @@ theorem processFile_succ_l (fs : FS) (incs : List String) (n : Nat) (st : State)
       | none => .error (.notFound p.leaf)
       | some r =>
         match st.names.lookup p.leaf with
-        | some q => if q ≠ r then .error (.sameName p.leaf) else processKnown fs incs n st p r
-        | none => processKnown fs incs n { st with names := (p.leaf, r) :: st.names } p r := by
+        | some q => if q ≠ r then .error (.sameName p.leaf) else processNamed fs incs n st p r
+        | none => processNamed fs incs n { st with names := (p.leaf, r) :: st.names } p r := by
   simp only [processFile]; rfl
+
+theorem processNamed_succ_l (fs : FS) (incs : List String) (n : Nat) (st : State) (p r : Path) :
+    processNamed fs incs (n + 1) st p r =
+      match st.nameOf.lookup r with
+      | some l => if l ≠ p.leaf then .error (.twoNames p) else processKnown fs incs n st p r
+      | none => processKnown fs incs n { st with nameOf := (r, p.leaf) :: st.nameOf } p r := by
+  simp only [processNamed]; rfl
 
 theorem processKnown_succ_l (fs : FS) (incs : List String) (n : Nat) (st : State) (p r : Path) :
     processKnown fs incs (n + 1) st p r =
@@ -602,7 +609,7 @@ theorem processIncludes_succ_l (fs : FS) (incs : List String) (n : Nat) (st : St
 theorem processFile_ok_inv_l {fs : FS} {incs : List String} {n : Nat} {st st' : State} {p : Path} {res : Result}
     (h : processFile fs incs n st p = .ok (res, st')) :
     ∃ m r st0, n = m + 1 ∧ real fs p = some r ∧ st0.cache = st.cache ∧ st0.includesOf = st.includesOf ∧
-      st0.verified = st.verified ∧ processKnown fs incs m st0 p r = .ok (res, st') := by
+      st0.verified = st.verified ∧ st0.nameOf = st.nameOf ∧ processNamed fs incs m st0 p r = .ok (res, st') := by
   cases n with
   | zero => simp [processFile] at h
   | succ m =>
@@ -614,13 +621,32 @@ theorem processFile_ok_inv_l {fs : FS} {incs : List String} {n : Nat} {st st' : 
       cases hn : st.names.lookup p.leaf with
       | none =>
         simp only [hn] at h
-        exact ⟨m, r, { st with names := (p.leaf, r) :: st.names }, rfl, rfl, rfl, rfl, rfl, h⟩
+        exact ⟨m, r, { st with names := (p.leaf, r) :: st.names }, rfl, rfl, rfl, rfl, rfl, rfl, h⟩
       | some q =>
         simp only [hn] at h
         by_cases hq : q ≠ r
         · rw [if_pos hq] at h; cases h
         · rw [if_neg hq] at h
-          exact ⟨m, r, st, rfl, rfl, rfl, rfl, rfl, h⟩
+          exact ⟨m, r, st, rfl, rfl, rfl, rfl, rfl, rfl, h⟩
+
+theorem processNamed_ok_inv_l {fs : FS} {incs : List String} {n : Nat} {st st' : State} {p r : Path} {res : Result}
+    (h : processNamed fs incs n st p r = .ok (res, st')) :
+    ∃ m st0, n = m + 1 ∧ st0.cache = st.cache ∧ st0.includesOf = st.includesOf ∧
+      st0.verified = st.verified ∧ processKnown fs incs m st0 p r = .ok (res, st') := by
+  cases n with
+  | zero => simp [processNamed] at h
+  | succ m =>
+    rw [processNamed_succ_l] at h
+    cases hn : st.nameOf.lookup r with
+    | none =>
+      simp only [hn] at h
+      exact ⟨m, { st with nameOf := (r, p.leaf) :: st.nameOf }, rfl, rfl, rfl, rfl, h⟩
+    | some l =>
+      simp only [hn] at h
+      by_cases hq : l ≠ p.leaf
+      · rw [if_pos hq] at h; cases h
+      · rw [if_neg hq] at h
+        exact ⟨m, st, rfl, rfl, rfl, rfl, h⟩
 
 theorem processKnown_ok_inv_l {fs : FS} {incs : List String} {n : Nat} {st st' : State} {p r : Path} {res : Result}
     (h : processKnown fs incs n st p r = .ok (res, st')) :
@@ -774,6 +800,12 @@ def PKStmt_l (fs : FS) (incs : List String) (n : Nat) : Prop :=
     Inv_l fs incs st'.cache st'.includesOf st'.verified ∧ Frame_l st.cache st.verified st'.cache st'.verified ∧
     IOF_l none st.cache st.includesOf st'.includesOf ∧ Out_l fs incs st'.cache p res
 
+def PNStmt_l (fs : FS) (incs : List String) (n : Nat) : Prop :=
+  ∀ (st : State) (p r : Path) (res : Result) (st' : State), processNamed fs incs n st p r = .ok (res, st') →
+    real fs p = some r → Inv_l fs incs st.cache st.includesOf st.verified →
+    Inv_l fs incs st'.cache st'.includesOf st'.verified ∧ Frame_l st.cache st.verified st'.cache st'.verified ∧
+    IOF_l none st.cache st.includesOf st'.includesOf ∧ Out_l fs incs st'.cache p res
+
 def PIStmt_l (fs : FS) (incs : List String) (n : Nat) : Prop :=
   ∀ (st : State) (p r : Path) (leaves vis : List String) (parsed found : List Path) (shapes : List (Nat × Path))
     (st' : State) (l0 : List (String × Option Path)),
@@ -788,9 +820,18 @@ def PIStmt_l (fs : FS) (incs : List String) (n : Nat) : Prop :=
       ∀ e ∈ new, ∃ h f rf, find fs e.1 (searchDirs fs incs p) = some h ∧ e.2 = some f ∧ fin_l st'.cache f rf ∧
         EvalsTo_l fs incs st'.cache h rf
 
-theorem PF_step_l (fs : FS) (incs : List String) (n : Nat) (hK : PKStmt_l fs incs n) : PFStmt_l fs incs (n + 1) := by
+theorem PF_step_l (fs : FS) (incs : List String) (n : Nat) (hK : PNStmt_l fs incs n) : PFStmt_l fs incs (n + 1) := by
   intro st p res st' h hI
-  obtain ⟨m, r, st0, hm, hr, e1, e2, e3, hk⟩ := processFile_ok_inv_l h
+  obtain ⟨m, r, st0, hm, hr, e1, e2, e3, _, hk⟩ := processFile_ok_inv_l h
+  have hm' : m = n := by omega
+  subst hm'
+  have := hK st0 p r res st' hk hr (by rw [e1, e2, e3]; exact hI)
+  rw [e1, e2, e3] at this
+  exact this
+
+theorem PN_step_l (fs : FS) (incs : List String) (n : Nat) (hK : PKStmt_l fs incs n) : PNStmt_l fs incs (n + 1) := by
+  intro st p r res st' h hr hI
+  obtain ⟨m, st0, hm, e1, e2, e3, hk⟩ := processNamed_ok_inv_l h
   have hm' : m = n := by omega
   subst hm'
   have := hK st0 p r res st' hk hr (by rw [e1, e2, e3]; exact hI)
@@ -1043,16 +1084,17 @@ theorem PI_zero_l (fs : FS) (incs : List String) : PIStmt_l fs incs 0 := by
   · omega
 
 theorem all_stmts_l (fs : FS) (incs : List String) :
-    ∀ n, PFStmt_l fs incs n ∧ PKStmt_l fs incs n ∧ PIStmt_l fs incs n := by
+    ∀ n, PFStmt_l fs incs n ∧ PNStmt_l fs incs n ∧ PKStmt_l fs incs n ∧ PIStmt_l fs incs n := by
   intro n
   induction n with
   | zero =>
-    refine ⟨?_, ?_, PI_zero_l fs incs⟩
+    refine ⟨?_, ?_, ?_, PI_zero_l fs incs⟩
     · intro st p res st' h; simp [processFile] at h
+    · intro st p r res st' h; simp [processNamed] at h
     · intro st p r res st' h; simp [processKnown] at h
   | succ n ih =>
-    obtain ⟨hF, hK, hI⟩ := ih
-    exact ⟨PF_step_l fs incs n hK, PK_step_l fs incs n hI, PI_step_l fs incs n hF hI⟩
+    obtain ⟨hF, hN, hK, hI⟩ := ih
+    exact ⟨PF_step_l fs incs n hN, PN_step_l fs incs n hK, PK_step_l fs incs n hI, PI_step_l fs incs n hF hI⟩
 
 theorem Inv_init_l (fs : FS) (incs : List String) : Inv_l fs incs [] [] [] := by
   refine ⟨?_, ?_, ?_⟩
@@ -1322,6 +1364,11 @@ def SimF_l (fs : List Files.File) (incs : List String) (n : Nat) : Prop :=
     processFile (ofFiles fs) incs n st p = .ok (res, st') →
     Files.processFile fs n (p.dir :: incs) (toCache_l st.cache) (toId_l p) = .ok (toRes_l res, toCache_l st'.cache)
 
+def SimN_l (fs : List Files.File) (incs : List String) (n : Nat) : Prop :=
+  ∀ (st : State) (p : Path) (res : Result) (st' : State),
+    processNamed (ofFiles fs) incs n st p p = .ok (res, st') →
+    Files.processFile fs n (p.dir :: incs) (toCache_l st.cache) (toId_l p) = .ok (toRes_l res, toCache_l st'.cache)
+
 def SimK_l (fs : List Files.File) (incs : List String) (n : Nat) : Prop :=
   ∀ (st : State) (p : Path) (res : Result) (st' : State),
     processKnown (ofFiles fs) incs n st p p = .ok (res, st') →
@@ -1334,15 +1381,25 @@ def SimI_l (fs : List Files.File) (incs : List String) (n : Nat) : Prop :=
     Files.processIncludes fs n (p.dir :: incs) (toCache_l st.cache) leaves =
       .ok (vis, parsed.map toId_l, toCache_l st'.cache)
 
-theorem SimF_step_l (fs : List Files.File) (incs : List String) (n : Nat) (hK : SimK_l fs incs n) :
+theorem SimF_step_l (fs : List Files.File) (incs : List String) (n : Nat) (hK : SimN_l fs incs n) :
     SimF_l fs incs (n + 1) := by
   intro st p res st' h
-  obtain ⟨m, r, st0, hm, hr, e1, _, _, hk⟩ := processFile_ok_inv_l h
+  obtain ⟨m, r, st0, hm, hr, e1, _, _, _, hk⟩ := processFile_ok_inv_l h
   have hm' : m = n := by omega
   subst hm'
   have := real_ofFiles_eq_l hr
   subst this
   have := hK st0 r res st' hk
+  rw [e1] at this
+  exact (Files_mono_succ_l fs m).1 _ _ _ _ this
+
+theorem SimN_step_l (fs : List Files.File) (incs : List String) (n : Nat) (hK : SimK_l fs incs n) :
+    SimN_l fs incs (n + 1) := by
+  intro st p res st' h
+  obtain ⟨m, st0, hm, e1, _, _, hk⟩ := processNamed_ok_inv_l h
+  have hm' : m = n := by omega
+  subst hm'
+  have := hK st0 p res st' hk
   rw [e1] at this
   exact (Files_mono_succ_l fs m).1 _ _ _ _ this
 
@@ -1414,12 +1471,13 @@ theorem SimI_step_l (fs : List Files.File) (incs : List String) (n : Nat) (hF : 
           rfl
 
 theorem Sim_all_l (fs : List Files.File) (incs : List String) :
-    ∀ n, SimF_l fs incs n ∧ SimK_l fs incs n ∧ SimI_l fs incs n := by
+    ∀ n, SimF_l fs incs n ∧ SimN_l fs incs n ∧ SimK_l fs incs n ∧ SimI_l fs incs n := by
   intro n
   induction n with
   | zero =>
-    refine ⟨?_, ?_, ?_⟩
+    refine ⟨?_, ?_, ?_, ?_⟩
     · intro st p res st' h; simp [processFile] at h
+    · intro st p res st' h; simp [processNamed] at h
     · intro st p res st' h; simp [processKnown] at h
     · intro st p r leaves vis parsed found shapes st' h
       cases leaves with
@@ -1433,18 +1491,63 @@ theorem Sim_all_l (fs : List Files.File) (incs : List String) :
         rfl
       | cons leaf rest => simp [processIncludes] at h
   | succ n ih =>
-    obtain ⟨hF, hK, hI⟩ := ih
-    exact ⟨SimF_step_l fs incs n hK, SimK_step_l fs incs n hI, SimI_step_l fs incs n hF hI⟩
+    obtain ⟨hF, hN, hK, hI⟩ := ih
+    exact ⟨SimF_step_l fs incs n hN, SimN_step_l fs incs n hK, SimK_step_l fs incs n hI, SimI_step_l fs incs n hF hI⟩
 
-theorem fuelOf_ofFiles_l (fs : List Files.File) : fuelOf (ofFiles fs) = 4 * fs.length + 4 := by
+theorem fuelOf_ofFiles_l (fs : List Files.File) : fuelOf (ofFiles fs) = 5 * fs.length + 5 := by
   simp [fuelOf, ofFiles]
 
+/-- `Files.processMains` with the fuel as a parameter (`Files.processMains` itself is the instance `4 * fs.length + 4`) -/
+def filesMainsN_l (fs : List Files.File) (n : Nat) (includeDirs : List String) :
+    List Files.FileId → Files.Cache → Except Files.Err (List (Files.FileId × Files.Result))
+  | [], _ => .ok []
+  | f :: r, cache =>
+    match Files.processFile fs n (f.dir :: includeDirs) cache f with
+    | .error e => .error e
+    | .ok (res, cache1) =>
+      match filesMainsN_l fs n includeDirs r cache1 with
+      | .error e => .error e
+      | .ok rs => .ok ((f, res) :: rs)
+
+theorem filesMainsN_eq_l (fs : List Files.File) (incs : List String) :
+    ∀ ms cache, filesMainsN_l fs (4 * fs.length + 4) incs ms cache = Files.processMains fs incs ms cache
+  | [], _ => rfl
+  | f :: r, cache => by
+    simp only [filesMainsN_l, Files.processMains, filesMainsN_eq_l fs incs r]
+    rfl
+
+theorem Files_mono_l (fs : List Files.File) {n m : Nat} (hnm : n ≤ m) {dirs : List String} {cache : Files.Cache}
+    {f : Files.FileId} {x : Files.Result × Files.Cache} (h : Files.processFile fs n dirs cache f = .ok x) :
+    Files.processFile fs m dirs cache f = .ok x := by
+  induction hnm with
+  | refl => exact h
+  | step _ ih => exact (Files_mono_succ_l fs _).1 _ _ _ _ ih
+
+theorem filesMainsN_mono_l (fs : List Files.File) (incs : List String) {n m : Nat} (hnm : n ≤ m) :
+    ∀ ms cache rs, filesMainsN_l fs n incs ms cache = .ok rs → filesMainsN_l fs m incs ms cache = .ok rs
+  | [], _, rs, h => h
+  | f :: r, cache, rs, h => by
+    simp only [filesMainsN_l] at h ⊢
+    cases hp : Files.processFile fs n (f.dir :: incs) cache f with
+    | error e => simp [hp] at h
+    | ok x =>
+      obtain ⟨res, c1⟩ := x
+      simp only [hp] at h
+      rw [Files_mono_l fs hnm hp]
+      cases hm : filesMainsN_l fs n incs r c1 with
+      | error e => simp [hm] at h
+      | ok rs1 =>
+        simp only [hm] at h
+        simp only [filesMainsN_mono_l fs incs hnm r c1 rs1 hm]
+        exact h
+
 /-- **C. Refinement**, from any state: a successful run of the model with links over a file system without links is
-    a successful run of the older model, with the same results and the same cache -/
+    a successful run of the older model WITH THE SAME FUEL (`5 * fs.length + 5`; see `C20Links.lean` for why the fuel
+    `4 * fs.length + 4` that `Files.processMains` fixes is not always enough), with the same results -/
 theorem processMains_refines_l (fs : List Files.File) (incs : List String) :
     ∀ (ms : List Path) (st : State) (rs : List (Path × Result)),
       processMains (ofFiles fs) incs ms st = .ok rs →
-      Files.processMains fs incs (ms.map toId_l) (toCache_l st.cache) =
+      filesMainsN_l fs (5 * fs.length + 5) incs (ms.map toId_l) (toCache_l st.cache) =
         .ok (rs.map fun mr => (toId_l mr.1, toRes_l mr.2))
   | [], st, rs, h => by
     simp only [processMains] at h
@@ -1467,10 +1570,63 @@ theorem processMains_refines_l (fs : List Files.File) (incs : List String) :
         have h1 := (Sim_all_l fs incs (fuelOf (ofFiles fs))).1 st m res st1 hp
         rw [fuelOf_ofFiles_l] at h1
         have h2 := processMains_refines_l fs incs ms st1 rs1 hm
-        simp only [List.map_cons, Files.processMains]
+        simp only [List.map_cons, filesMainsN_l]
         have : (toId_l m).dir = m.dir := rfl
         rw [this, h1]
         simp only [h2]
+
+/-- whenever the older model, with its own fuel, succeeds as well, it gives the same results -/
+theorem processMains_refines_agree_l (fs : List Files.File) (incs : List String) (ms : List Path) (st : State)
+    (rs : List (Path × Result)) (rs' : List (Files.FileId × Files.Result))
+    (h : processMains (ofFiles fs) incs ms st = .ok rs)
+    (h' : Files.processMains fs incs (ms.map toId_l) (toCache_l st.cache) = .ok rs') :
+    rs' = rs.map fun mr => (toId_l mr.1, toRes_l mr.2) := by
+  have h1 := processMains_refines_l fs incs ms st rs h
+  rw [← filesMainsN_eq_l] at h'
+  have h2 := filesMainsN_mono_l fs incs (by omega : 4 * fs.length + 4 ≤ 5 * fs.length + 5) _ _ _ h'
+  rw [h1] at h2
+  injection h2 with h2
+  exact h2.symm
+
+/-- `Files.parsed_once_p15` for any fuel -/
+theorem filesMainsN_parsedInv_l (fs : List Files.File) (n : Nat) (inc : List String) :
+    ∀ (ms : List Files.FileId) (cache : Files.Cache) (rs : List (Files.FileId × Files.Result)),
+      filesMainsN_l fs n inc ms cache = .ok rs →
+      (Files.allParsed_p15 rs).Nodup ∧ ∀ g ∈ Files.allParsed_p15 rs, cache.lookup g = none
+  | [], cache, rs, h => by
+    simp only [filesMainsN_l] at h
+    injection h with h
+    subst h
+    simp [Files.allParsed_p15]
+  | f :: ms, cache, rs, h => by
+    simp only [filesMainsN_l] at h
+    cases hp : Files.processFile fs n (f.dir :: inc) cache f with
+    | error e => simp [hp] at h
+    | ok res =>
+      obtain ⟨r, c1⟩ := res
+      simp only [hp] at h
+      cases hm : filesMainsN_l fs n inc ms c1 with
+      | error e => simp [hm] at h
+      | ok rs1 =>
+        simp only [hm] at h
+        injection h with h
+        subst h
+        have h1 := Files.processFile_parsedInv_p15 hp
+        have ⟨h2, h3⟩ := filesMainsN_parsedInv_l fs n inc ms c1 rs1 hm
+        have hall : Files.allParsed_p15 ((f, r) :: rs1) = r.parsed ++ Files.allParsed_p15 rs1 := by
+          simp [Files.allParsed_p15]
+        rw [hall]
+        refine ⟨List.nodup_append.mpr ⟨h1.nodup, h2, ?_⟩, ?_⟩
+        · intro a ha b hb hab
+          subst hab
+          exact h1.added a ha (h3 a hb)
+        · intro a ha
+          rcases List.mem_append.mp ha with ha | ha
+          · exact h1.fresh a ha
+          · have := h3 a ha
+            cases hc : List.lookup a cache with
+            | none => rfl
+            | some o => exact absurd this (h1.mono a (by simp [hc]))
 
 /-! ### without links `sameIncludes` always succeeds (and changes nothing) -/
 
@@ -1497,6 +1653,11 @@ def VStmtK_l (fs : List Files.File) (incs : List String) (n : Nat) : Prop :=
     processKnown (ofFiles fs) incs n st p p = .ok (res, st') → real (ofFiles fs) p = some p → VerInv_l st →
     VerInv_l st' ∧ (∀ k ∈ st.verified, k ∈ st'.verified) ∧ (∀ x, st.cache.lookup x ≠ none → st'.cache.lookup x = st.cache.lookup x)
 
+def VStmtN_l (fs : List Files.File) (incs : List String) (n : Nat) : Prop :=
+  ∀ (st : State) (p : Path) (res : Result) (st' : State),
+    processNamed (ofFiles fs) incs n st p p = .ok (res, st') → real (ofFiles fs) p = some p → VerInv_l st →
+    VerInv_l st' ∧ (∀ k ∈ st.verified, k ∈ st'.verified) ∧ (∀ x, st.cache.lookup x ≠ none → st'.cache.lookup x = st.cache.lookup x)
+
 def VStmtI_l (fs : List Files.File) (incs : List String) (n : Nat) : Prop :=
   ∀ (st : State) (p r : Path) (leaves vis : List String) (parsed found : List Path) (shapes : List (Nat × Path))
     (st' : State),
@@ -1504,27 +1665,35 @@ def VStmtI_l (fs : List Files.File) (incs : List String) (n : Nat) : Prop :=
     VerInv_l st' ∧ (∀ k ∈ st.verified, k ∈ st'.verified) ∧ (∀ x, st.cache.lookup x ≠ none → st'.cache.lookup x = st.cache.lookup x)
 
 theorem VStmt_all_l (fs : List Files.File) (incs : List String) :
-    ∀ n, VStmtF_l fs incs n ∧ VStmtK_l fs incs n ∧ VStmtI_l fs incs n := by
+    ∀ n, VStmtF_l fs incs n ∧ VStmtN_l fs incs n ∧ VStmtK_l fs incs n ∧ VStmtI_l fs incs n := by
   intro n
   induction n with
   | zero =>
-    refine ⟨?_, ?_, ?_⟩
+    refine ⟨?_, ?_, ?_, ?_⟩
     · intro st p res st' h; simp [processFile] at h
+    · intro st p res st' h; simp [processNamed] at h
     · intro st p res st' h; simp [processKnown] at h
     · intro st p r leaves vis parsed found shapes st' h hI
       rcases processIncludes_ok_inv_l h with ⟨_, _, _, hst⟩ | ⟨m, _, _, _, _, _, _, _, _, _, hm, _⟩
       · subst hst; exact ⟨hI, fun _ h => h, fun _ _ => rfl⟩
       · omega
   | succ n ih =>
-    obtain ⟨hF, hK, hI⟩ := ih
-    refine ⟨?_, ?_, ?_⟩
+    obtain ⟨hF, hN, hK, hI⟩ := ih
+    refine ⟨?_, ?_, ?_, ?_⟩
     · intro st p res st' h hV
-      obtain ⟨m, r, st0, hm, hr, e1, _, e3, hk⟩ := processFile_ok_inv_l h
+      obtain ⟨m, r, st0, hm, hr, e1, _, e3, _, hk⟩ := processFile_ok_inv_l h
       have hm' : m = n := by omega
       subst hm'
       have := real_ofFiles_eq_l hr
       subst this
-      have := hK st0 r res st' hk hr (by intro x rx hx; rw [e1] at hx; rw [e3]; exact hV x rx hx)
+      have := hN st0 r res st' hk hr (by intro x rx hx; rw [e1] at hx; rw [e3]; exact hV x rx hx)
+      rw [e1, e3] at this
+      exact this
+    · intro st p res st' h hr hV
+      obtain ⟨m, st0, hm, e1, _, e3, hk⟩ := processNamed_ok_inv_l h
+      have hm' : m = n := by omega
+      subst hm'
+      have := hK st0 p res st' hk hr (by intro x rx hx; rw [e1] at hx; rw [e3]; exact hV x rx hx)
       rw [e1, e3] at this
       exact this
     · intro st p res st' h hr hV
@@ -1586,6 +1755,224 @@ theorem VerInv_init_l : VerInv_l {} := by
 theorem VerInv_processFile_l (fs : List Files.File) (incs : List String) (n : Nat) (st : State) (p : Path)
     (res : Result) (st' : State) (h : processFile (ofFiles fs) incs n st p = .ok (res, st')) (hV : VerInv_l st) :
     VerInv_l st' := ((VStmt_all_l fs incs n).1 st p res st' h hV).1
+
+/-! ### without links `processNamed` never refuses (`TwoNamesError` cannot happen) -/
+
+/-- every real path is registered under its own leaf - without links the only name it can be used under -/
+def NameInv_l (st : State) : Prop := ∀ r l, st.nameOf.lookup r = some l → l = r.leaf
+
+theorem NameInv_init_l : NameInv_l {} := by
+  intro r l h
+  simp at h
+
+/-- without links a path is its own real path, so the registered name is the leaf used now: `processNamed` goes on to
+    `processKnown`, in a state that satisfies the invariant again -/
+theorem processNamed_ofFiles_l (fs : List Files.File) (incs : List String) (n : Nat) (st : State) (p r : Path)
+    (hI : NameInv_l st) (hr : real (ofFiles fs) p = some r) :
+    ∃ st0, NameInv_l st0 ∧ st0.cache = st.cache ∧ st0.includesOf = st.includesOf ∧ st0.verified = st.verified ∧
+      st0.names = st.names ∧
+      processNamed (ofFiles fs) incs (n + 1) st p r = processKnown (ofFiles fs) incs n st0 p r := by
+  have := real_ofFiles_eq_l hr
+  subst this
+  rw [processNamed_succ_l]
+  cases hn : st.nameOf.lookup r with
+  | some l =>
+    have := hI r l hn
+    subst this
+    exact ⟨st, hI, rfl, rfl, rfl, rfl, by simp⟩
+  | none =>
+    refine ⟨{ st with nameOf := (r, r.leaf) :: st.nameOf }, ?_, rfl, rfl, rfl, rfl, rfl⟩
+    intro x l hx
+    have hx : List.lookup x ((r, r.leaf) :: st.nameOf) = some l := hx
+    rw [lookup_cons_l] at hx
+    by_cases hxr : x = r
+    · rw [if_pos hxr] at hx
+      injection hx with hx
+      rw [← hx, hxr]
+    · rw [if_neg hxr] at hx
+      exact hI x l hx
+
+/-- `sameIncludes` does not touch `nameOf` and never reports `twoNames` -/
+def SameOK_l (st : State) (x : Except Err State) : Prop :=
+  match x with
+  | .ok st' => st'.nameOf = st.nameOf
+  | .error e => ∀ q, e ≠ .twoNames q
+
+theorem SameOK_trans_l {stA stB : State} {x : Except Err State} (h : SameOK_l stB x) (hn : stB.nameOf = stA.nameOf) :
+    SameOK_l stA x := by
+  cases x with
+  | error e => exact h
+  | ok st' => exact (show st'.nameOf = stB.nameOf from h).trans hn
+
+theorem sameIncludes_nameOf_l (fs : FS) (incs : List String) :
+    ∀ n st r p, SameOK_l st (sameIncludes fs incs n st r p) := by
+  intro n
+  induction n with
+  | zero => intro st r p; rw [sameIncludes_zero_l]; intro q h; cases h
+  | succ n ih =>
+    have hgo : ∀ (p : Path) (l : List (String × Option Path)) (stA : State),
+        SameOK_l stA (sameIncludes.go fs incs n p stA l) := by
+      intro p l
+      induction l with
+      | nil => intro stA; rw [sameGo_nil_l]; exact rfl
+      | cons e rest ihl =>
+        intro stA
+        obtain ⟨leaf, found⟩ := e
+        rw [sameGo_cons_l]
+        by_cases hne : (find fs leaf (searchDirs fs incs p)).bind (real fs) ≠ found
+        · rw [if_pos hne]; intro q h; cases h
+        · rw [if_neg hne]
+          cases hh : find fs leaf (searchDirs fs incs p) with
+          | none => exact ihl stA
+          | some h' =>
+            cases found with
+            | none => exact ihl stA
+            | some f' =>
+              simp only
+              have h1 := ih stA f' h'
+              cases hs : sameIncludes fs incs n stA f' h' with
+              | error e => rw [hs] at h1; exact h1
+              | ok stB =>
+                rw [hs] at h1
+                exact SameOK_trans_l (ihl stB) h1
+    intro st r p
+    rw [sameIncludes_succ_l]
+    by_cases hc : st.verified.contains (r, directoriesOf fs p) = true
+    · rw [if_pos hc]; exact rfl
+    · rw [if_neg hc]
+      exact hgo p _ { st with verified := (r, directoriesOf fs p) :: st.verified }
+
+def NoTwoF_l (x : Except Err (Result × State)) : Prop :=
+  match x with
+  | .ok (_, st') => NameInv_l st'
+  | .error e => ∀ q, e ≠ .twoNames q
+
+def NoTwoI_l (x : Except Err (List String × List Path × List Path × List (Nat × Path) × State)) : Prop :=
+  match x with
+  | .ok (_, _, _, _, st') => NameInv_l st'
+  | .error e => ∀ q, e ≠ .twoNames q
+
+theorem NoTwo_all_l (fs : List Files.File) (incs : List String) :
+    ∀ n, (∀ st p, NameInv_l st → NoTwoF_l (processFile (ofFiles fs) incs n st p)) ∧
+         (∀ st p r, NameInv_l st → real (ofFiles fs) p = some r → NoTwoF_l (processNamed (ofFiles fs) incs n st p r)) ∧
+         (∀ st p r, NameInv_l st → NoTwoF_l (processKnown (ofFiles fs) incs n st p r)) ∧
+         (∀ st p r l, NameInv_l st → NoTwoI_l (processIncludes (ofFiles fs) incs n st p r l)) := by
+  intro n
+  induction n with
+  | zero =>
+    refine ⟨?_, ?_, ?_, ?_⟩
+    · intro st p _; simp only [processFile]; intro q h; cases h
+    · intro st p r _ _; simp only [processNamed]; intro q h; cases h
+    · intro st p r _; simp only [processKnown]; intro q h; cases h
+    · intro st p r l hI
+      cases l with
+      | nil => rw [processIncludes_nil_l]; exact hI
+      | cons a l => simp only [processIncludes]; intro q h; cases h
+  | succ n ih =>
+    obtain ⟨hF, hN, hK, hI⟩ := ih
+    refine ⟨?_, ?_, ?_, ?_⟩
+    · intro st p hV
+      rw [processFile_succ_l]
+      cases hr : real (ofFiles fs) p with
+      | none => intro q h; cases h
+      | some r =>
+        simp only
+        cases hn : st.names.lookup p.leaf with
+        | none => exact hN { st with names := (p.leaf, r) :: st.names } p r hV hr
+        | some q0 =>
+          simp only
+          split
+          · intro q h; cases h
+          · exact hN st p r hV hr
+    · intro st p r hV hr
+      obtain ⟨st0, h0, _, _, _, _, heq⟩ := processNamed_ofFiles_l fs incs n st p r hV hr
+      rw [heq]
+      exact hK st0 p r h0
+    · intro st p r hV
+      rw [processKnown_succ_l]
+      cases hl : st.cache.lookup r with
+      | some o =>
+        cases o with
+        | none => intro q h; cases h
+        | some res0 =>
+          simp only
+          have h1 := sameIncludes_nameOf_l (ofFiles fs) incs (n + 1) st r p
+          cases hs : sameIncludes (ofFiles fs) incs (n + 1) st r p with
+          | error e => rw [hs] at h1; exact h1
+          | ok st' =>
+            rw [hs] at h1
+            have h1 : st'.nameOf = st.nameOf := h1
+            intro x l hx
+            have hx : st'.nameOf.lookup x = some l := hx
+            rw [h1] at hx
+            exact hV x l hx
+      | none =>
+        simp only
+        cases hc : content (ofFiles fs) r with
+        | none => intro q h; cases h
+        | some file =>
+          simp only
+          have h1 := hI ({ st with cache := (r, none) :: st.cache, includesOf := (r, []) :: st.includesOf, verified := (r, directoriesOf (ofFiles fs) p) :: st.verified } : State) p r file.includes hV
+          cases hi : processIncludes (ofFiles fs) incs n ({ st with cache := (r, none) :: st.cache, includesOf := (r, []) :: st.includesOf, verified := (r, directoriesOf (ofFiles fs) p) :: st.verified } : State) p r file.includes with
+          | error e => rw [hi] at h1; exact h1
+          | ok y =>
+            obtain ⟨vis, parsed, found, shapes, st2⟩ := y
+            rw [hi] at h1
+            simp only
+            split
+            · intro q h; cases h
+            · exact h1
+    · intro st p r l hV
+      cases l with
+      | nil => rw [processIncludes_nil_l]; exact hV
+      | cons leaf rest =>
+        rw [processIncludes_succ_l]
+        cases hg : find (ofFiles fs) leaf (searchDirs (ofFiles fs) incs p) with
+        | none => intro q h; cases h
+        | some g =>
+          simp only
+          have h1 := hF ({ st with includesOf := (r, (st.includesOf.lookup r).getD [] ++ [(leaf, real (ofFiles fs) g)]) :: st.includesOf } : State) g hV
+          cases hp : processFile (ofFiles fs) incs n ({ st with includesOf := (r, (st.includesOf.lookup r).getD [] ++ [(leaf, real (ofFiles fs) g)]) :: st.includesOf } : State) g with
+          | error e => rw [hp] at h1; exact h1
+          | ok y =>
+            obtain ⟨res, st2⟩ := y
+            rw [hp] at h1
+            simp only
+            have h2 := hI st2 p r rest h1
+            cases hi : processIncludes (ofFiles fs) incs n st2 p r rest with
+            | error e => rw [hi] at h2; exact h2
+            | ok z =>
+              obtain ⟨vis, parsed, found, shapes, st3⟩ := z
+              rw [hi] at h2
+              exact h2
+
+/-- a run over a file system without links never ends with `twoNames` -/
+theorem processMains_noTwoNames_l (fs : List Files.File) (incs : List String) :
+    ∀ (ms : List Path) (st : State), NameInv_l st → ∀ q, processMains (ofFiles fs) incs ms st ≠ .error (.twoNames q)
+  | [], st, _, q => by simp only [processMains]; intro h; cases h
+  | m :: ms, st, hV, q => by
+    simp only [processMains]
+    have h1 := (NoTwo_all_l fs incs (fuelOf (ofFiles fs))).1 st m hV
+    cases hp : processFile (ofFiles fs) incs (fuelOf (ofFiles fs)) st m with
+    | error e =>
+      rw [hp] at h1
+      simp only
+      intro h
+      injection h with h
+      exact h1 q h
+    | ok y =>
+      obtain ⟨res, st1⟩ := y
+      rw [hp] at h1
+      simp only
+      have h2 := processMains_noTwoNames_l fs incs ms st1 h1 q
+      cases hm : processMains (ofFiles fs) incs ms st1 with
+      | error e =>
+        rw [hm] at h2
+        simp only
+        intro h
+        injection h with h
+        exact h2 (by rw [h])
+      | ok rs => simp only; intro h; cases h
 
 /-! ## Executable copies
 
@@ -1657,8 +2044,14 @@ mutual
       | none => .error (.notFound p.leaf)
       | some r =>
         match st.names.lookup p.leaf with
-        | some q => if q ≠ r then .error (.sameName p.leaf) else processKnownS_l fs incs fuel st p r
-        | none => processKnownS_l fs incs fuel { st with names := (p.leaf, r) :: st.names } p r
+        | some q => if q ≠ r then .error (.sameName p.leaf) else processNamedS_l fs incs fuel st p r
+        | none => processNamedS_l fs incs fuel { st with names := (p.leaf, r) :: st.names } p r
+  def processNamedS_l (fs : FS) (incs : List String) : Nat → State → Path → Path → Except Err (Result × State)
+    | 0, _, p, _ => .error (.cyclic p)
+    | fuel + 1, st, p, r =>
+      match st.nameOf.lookup r with
+      | some l => if l ≠ p.leaf then .error (.twoNames p) else processKnownS_l fs incs fuel st p r
+      | none => processKnownS_l fs incs fuel { st with nameOf := (r, p.leaf) :: st.nameOf } p r
   def processKnownS_l (fs : FS) (incs : List String) : Nat → State → Path → Path → Except Err (Result × State)
     | 0, _, p, _ => .error (.cyclic p)
     | fuel + 1, st, p, r =>
@@ -1715,19 +2108,22 @@ def processMainsS_l (fs : FS) (incs : List String) : List Path → State → Exc
 
 theorem processS_eq_l (fs : FS) (incs : List String) :
     ∀ n, (∀ st p, processFileS_l fs incs n st p = processFile fs incs n st p) ∧
+         (∀ st p r, processNamedS_l fs incs n st p r = processNamed fs incs n st p r) ∧
          (∀ st p r, processKnownS_l fs incs n st p r = processKnown fs incs n st p r) ∧
          (∀ st p r l, processIncludesS_l fs incs n st p r l = processIncludes fs incs n st p r l) := by
   intro n
   induction n with
   | zero =>
-    refine ⟨?_, ?_, ?_⟩
+    refine ⟨?_, ?_, ?_, ?_⟩
     · intro st p; simp only [processFileS_l, processFile]
+    · intro st p r; simp only [processNamedS_l, processNamed]
     · intro st p r; simp only [processKnownS_l, processKnown]
     · intro st p r l; cases l <;> simp only [processIncludesS_l, processIncludes]
   | succ n ih =>
-    obtain ⟨hF, hK, hI⟩ := ih
-    refine ⟨?_, ?_, ?_⟩
-    · intro st p; simp only [processFileS_l, processFile, hK]; rfl
+    obtain ⟨hF, hN, hK, hI⟩ := ih
+    refine ⟨?_, ?_, ?_, ?_⟩
+    · intro st p; simp only [processFileS_l, processFile, hN]; rfl
+    · intro st p r; simp only [processNamedS_l, processNamed, hK]; rfl
     · intro st p r; simp only [processKnownS_l, processKnown, hI, sameIncludesS_eq_l]; rfl
     · intro st p r l; cases l <;> simp only [processIncludesS_l, processIncludes, hF, hI] <;> rfl
 
@@ -1797,3 +2193,6 @@ end Prophy.FilesL
 #print axioms Prophy.FilesL.processMains_refines_l
 #print axioms Prophy.FilesL.sameIncludes_ofFiles_l
 #print axioms Prophy.FilesL.processMainsS_eq_l
+#print axioms Prophy.FilesL.processMains_refines_agree_l
+#print axioms Prophy.FilesL.processMains_noTwoNames_l
+#print axioms Prophy.FilesL.evalS_eq_l
